@@ -7,10 +7,21 @@ From FR.Generated Require Consts.
 Import ListNotations.
 Open Scope Z_scope.
 
+(* the two limits of the model ARE the values read from the source (Step.v defines them from Generated/Consts.v), so a
+   change of a limit in the code changes the model with it; the theorems about the transition function hold for every
+   value of them *)
 Theorem C18_limits_agree :
-  Z.of_nat MaxNumVestingSchedules = Consts.max_num_vesting_schedules /\
-  Z.of_N MaxExtendedRound = Consts.max_extended_round.
-Proof. split; reflexivity. Qed.
+  Z.of_nat MaxNumVestingSchedules = Z.max 0 Consts.max_num_vesting_schedules /\
+  Z.of_N MaxExtendedRound = Z.max 0 Consts.max_extended_round.
+Proof.
+  unfold MaxNumVestingSchedules, MaxExtendedRound. split.
+  - destruct (Z.le_gt_cases 0 Consts.max_num_vesting_schedules) as [H|H].
+    + rewrite Z2Nat.id, Z.max_r by exact H. reflexivity.
+    + destruct Consts.max_num_vesting_schedules; try discriminate H; reflexivity.
+  - destruct (Z.le_gt_cases 0 Consts.max_extended_round) as [H|H].
+    + rewrite Z2N.id, Z.max_r by exact H. reflexivity.
+    + destruct Consts.max_extended_round; try discriminate H; reflexivity.
+Qed.
 Print Assumptions C18_limits_agree.
 
 Theorem C18_bid_types_agree :
